@@ -677,6 +677,18 @@ def concatenate(arrs, axis=0):
 
 
 def hstack(arrs):
+    from .core import SymList
+    if isinstance(arrs, SymList):
+        # np.hstack over a comprehension of symbolic length: supported when every piece is a 1-d array of exactly one element
+        with SpecMode():
+            probe = arrs.at(SInt(z3.Int('hs_probe')))
+        if not (isinstance(probe, SArr) and probe.ndim == 1 and concrete(probe.shape_e[0]) == 1):
+            raise Unsupported('hstack over a symbolic-length list of variable-length pieces')
+        def el(j):
+            # (the safety obligations of the element expression were generated once, for an arbitrary index in range, when the comprehension was built)
+            with SpecMode():
+                return arrs.at(SInt(j) if not isinstance(j, SInt) else j).elem(z3.IntVal(0))
+        return SArr((arrs.n,), el, probe.kind)
     arrs = list(arrs)
     if all(isinstance(a, SArr) and a.ndim == 1 for a in arrs):
         return concatenate(arrs, axis=0)
